@@ -1,5 +1,6 @@
 """C16 - debsig verification covers the package content that was actually loaded."""
 import lib
+import os
 import argen
 import debpkg
 from props.C14 import oracle_args
@@ -212,7 +213,36 @@ def run(chk):
         sc, want = rand_script(3)
         signedp, single_o, single_s = saved
         hc.append(("debhist", [sc.encode()] + [b for b, _, _ in trio])); hw.append(want)
+    # the FILE behind a LoadFile'd package is replaced on disk (a genuine, signed package renamed over a tampered one that
+    # was loaded): what was loaded stays what it was, so the check on that handle - before or after Close - never succeeds,
+    # and the exposed content stays the tampered one
+    for denc in (".gz", ".xz", ".zst", "", "same-layout", "same-layout"):
+        key = rng.randrange(2); role = rng.choice(roles)
+        same = denc == "same-layout"
+        if same:
+            denc = rng.choice([".gz", ""])
+        gbuf, ginfo = debpkg.build(chk, rng, "" if same else ".gz", denc)
+        gms = ginfo["ms"]
+        sig = bytes.fromhex(chk.run_impl([("sigmake", [str(key).encode(), gms[0]["data"] + gms[1]["data"] + gms[2]["data"]])])[0][1:])
+        genuine = argen.render(gms + [debpkg.member(b"_gpg" + role, sig)])
+        tbuf, tinfo = debpkg.build(chk, rng, ".gz", denc)          # another control and payload under the genuine signature
+        tampered = argen.render(tinfo["ms"] + [debpkg.member(b"_gpg" + role, sig)])
+        if same:
+            # the tampered package has EXACTLY the layout of the genuine one (an uncompressed control.tar in which one letter
+            # of the package name differs): member offsets and sizes recorded at load time fit the other file too
+            d = gms[1]["data"]; at = d.index(ginfo["ctext"]) + ginfo["ctext"].index(b"Package: ") + 9
+            d2 = d[:at] + (b"z" if d[at:at + 1] != b"z" else b"y") + d[at + 1:]
+            tampered = argen.render([gms[0], dict(gms[1], data=d2), gms[2], debpkg.member(b"_gpg" + role, sig)])
+        to, go = chk.run_impl([("debload", [tampered]), ("debload", [genuine])])
+        st = "S0:%s:%d" % (role.decode(), key)
+        for sc, want in (("F0 O0 X0 W0:1 " + st, ["( " + to + " )", "err"]), ("F0 W0:1 " + st + " O0", ["err", "( " + to + " )"]),
+                         ("F0 O0 C0 W0:1 " + st + " " + st, ["( " + to + " )", "err", "err"]), ("F0 X0 W0:1 F1 " + st + " O1", ["err", "( " + go + " )"])):
+            hc.append(("debhist", [sc.encode(), tampered, genuine])); hw.append(want)
     hi = chk.run_impl(hc)
+    if os.environ.get("VERIF_DEBUG16"):
+        for c, g in zip(hc, hi):
+            if b"W0:1" in c[1][0]:
+                print("DBG", c[1][0], len(c[1][1]), len(c[1][2]), g[-120:])
     chk.record("lifetime-histories", hc, hi, lambda c, r: r.startswith("["))
     for c, got, want in zip(hc, hi, hw):
         w = "[ " + " ".join(want) + " ]" if want else "[]"
